@@ -16,6 +16,18 @@ TRUNC = "chalk_solve::solve::truncate::needs_truncation"
 
 
 def run(ck, facts, tier):
+    R = "C09.RESET-AT-ROOT"
+    ck.rule(R, "K3 (shared with C12.REC-PAIRING): a node an unwound solve (overflow-depth panic, panicking database callback) left in "
+               "progress keeps `stack_depth: Some(d)` pointing into a stack that is gone; the next solve that reaches the goal takes it "
+               "for a cycle on the stack and indexes `self.stack[d]` - out of bounds.  So either solve_goal restores stack and graph on "
+               "its unwind path, or every root entry (the only way into solve_goal from outside a running solve) clears the stack AND "
+               "rolls the search graph back to its first node, on every path, before it calls solve_goal")
+    from core import CallGraph as _CG9
+    from props.c12 import root_entry_reset as _rer
+    _cg9 = _CG9(facts, ["chalk_ir", "chalk_solve", "chalk_engine", "chalk_recursive"])
+    _desc, _why = _rer(ck, facts, _cg9, R)
+    if _desc is None:
+        ck.violation(R, "solve_root_goal:reset-at-entry", "chalk-recursive/src/fixed_point.rs", "in-progress state of an unwound solve survives into the next one: %s" % _why)
     R = "C09.TRUNCATE"
     ck.rule(R, "K3: abstract_positive/negative_literal reach canonicalize (table creation) only on the false edge of needs_truncation; "
                "pursue_answer reaches push_answer only on the false edge and marks the table floundered on the true edge; "
